@@ -199,7 +199,8 @@ def run(prop, tier, judge_prop=None, level="model_checking", extra_cov=None, cas
         if not jr.postcondition_false:
             raise C.Infra("judge failed on %s:\n%s" % (chunk, jr.out[-3000:]))
         # walk through all rejected returns of this chunk: re-judge the remainder after each failure
-        violations += collect_violations(prop, judge_prop, chunk, n, jr, wd, binary, tier)
+        if len(violations) < C.MAX_VIOLATIONS:
+            violations += collect_violations(prop, judge_prop, chunk, n, jr, wd, binary, tier, C.MAX_VIOLATIONS - len(violations))
     for chunk, n, sr in strict:
         if not sr.ok and drift is None:
             if not sr.postcondition_false:
@@ -240,7 +241,7 @@ def run(prop, tier, judge_prop=None, level="model_checking", extra_cov=None, cas
     return code, violations, cov
 
 
-def collect_violations(prop, judge_prop, chunk, n, jr, wd, binary, tier):
+def collect_violations(prop, judge_prop, chunk, n, jr, wd, binary, tier, limit):
     """The judge stops at the first Return it cannot consume. Record it, cut the trace after that call, continue."""
     out = []
     lines = open(chunk).read().splitlines(keepends=True)
@@ -263,8 +264,8 @@ def collect_violations(prop, judge_prop, chunk, n, jr, wd, binary, tier):
         else:
             raise C.Infra("rejected trace did not reproduce in isolation: %s" % replay)
         rounds += 1
-        if rounds >= 40:
-            C.log("[%s] more than 40 rejected cases in one chunk; stopping enumeration" % prop)
+        if rounds >= limit:
+            C.log("[%s] %d witnesses reported; further rejected traces are not enumerated" % (prop, rounds))
             break
         # continue after this call
         # find end of this call (Return) relative to the current chunk
